@@ -210,6 +210,11 @@ pub struct H2Req {
     pub body: Blob,
     pub delay_ms: u64,
     pub req: usize,
+    /// > 0: the client drops this one stream (RST_STREAM) that many ms after
+    /// it has sent the request, unless the response is complete by then; the
+    /// connection and its other streams stay.
+    #[serde(default)]
+    pub cancel_ms: u64,
 }
 
 #[derive(Clone, Debug, Serialize, Deserialize, PartialEq)]
